@@ -162,8 +162,12 @@ func (m *MultihashIndexSorted) Load(records []Record) error {
 
 	// Load each record group.
 	for code, recsByCode := range byCode {
-		mwci := newMultiWidthCodedIndex()
-		mwci.code = code
+		// Load inserts: add to the group an earlier Load has made for this code, if there is one.
+		mwci, ok := (*m)[code]
+		if !ok {
+			mwci = newMultiWidthCodedIndex()
+			mwci.code = code
+		}
 		if err := mwci.Load(recsByCode); err != nil {
 			return err
 		}
